@@ -3,13 +3,15 @@
 usage: benign_prompt.py <tag> <worktree> <outdir> <n> <files...>"""
 import sys
 tag, wt, out, n = sys.argv[1:5]
-files = sys.argv[5:]
+files = [f for f in sys.argv[5:] if f != "r2"]
+r2 = "r2" in sys.argv[5:]
+KINDS = ("rewrite boolean conditions into equivalent ones (De Morgan, `a == b` -> `b == a`, `x < y` -> `y > x`, `len(s) > 0` <-> `len(s) != 0`, `!(a && b)` -> `!a || !b`, double negation removed); merge two nested ifs into one `&&` condition or split an `&&` condition into nested ifs; hoist a statement that is duplicated at the end of both branches out of the if (or the reverse: sink it into both branches); replace an if/else that assigns a variable by a default assignment followed by one if; convert `for i := 0; i < len(s); i++` into `for i := range s` (or the reverse); replace `var x T; x = f()` by `x := f()`; turn a method that does not use its receiver into a package-level function of the same package (or the reverse); change a value receiver name / parameter order of an UNEXPORTED helper consistently at all call sites; split one long function in two sequential helper calls; replace a chain of `append` calls by one; replace manual map-copy / slice-copy loops by `maps.Copy` / `copy` / `slices.Clone` style helpers from the standard library or samber/lo (both are already dependencies); introduce an intermediate local variable for a call result that was passed directly as an argument; reorder `case` clauses of a switch whose cases are mutually exclusive; reorder independent statements; add a defensive nil / empty check that callers already guarantee; add metrics / log lines (never printing credentials); change log and error message wording; also: ") if r2 else ""
 print(f"""You are helping to evaluate static-analysis tooling for the Go project zilliztech/milvus-cdc (a change-data-capture service for Milvus). You have your own scratch git worktree of the project at {wt} (three Go modules: core/, server/, rocksdb/). Work ONLY inside {wt} and {out}; never touch /repo or /verif and do not read anything under /verif.
 
 Your task: produce {n} DIFFERENT, independent, realistic maintenance edits to the NON-TEST source files listed below, each of which PRESERVES BEHAVIOUR EXACTLY — for every input, every goroutine schedule, every failure — while looking like something a maintainer would really do. The files:
   {chr(10).join('  ' + f for f in files)}
 
-Kinds of edit wanted (use a different kind for each, and touch the central functions of those files, not only their fringes): extract a block of a long function into a helper function or method (same package); inline a small helper into its only caller; rename local variables, parameters or unexported functions/fields; reorder statements that are independent of each other; turn an if/else-if chain into a switch (or the reverse); invert a condition and swap its branches; replace a hand-written loop by an equivalent helper (or the reverse); introduce a named constant or a local variable for a repeated expression; add log lines, metrics or comments that do not print secrets; change the wording of log or error messages; restructure with early returns / guard clauses; move a function to a new file of the same package; wrap an error with more context where the caller only tests it against nil; add a nil/empty guard that is redundant because callers already guarantee it. Each edit should be between a few and ~60 changed lines.
+Kinds of edit wanted (use a different kind for each, and touch the central functions of those files, not only their fringes): {KINDS}extract a block of a long function into a helper function or method (same package); inline a small helper into its only caller; rename local variables, parameters or unexported functions/fields; reorder statements that are independent of each other; turn an if/else-if chain into a switch (or the reverse); invert a condition and swap its branches; replace a hand-written loop by an equivalent helper (or the reverse); introduce a named constant or a local variable for a repeated expression; add log lines, metrics or comments that do not print secrets; change the wording of log or error messages; restructure with early returns / guard clauses; move a function to a new file of the same package; wrap an error with more context where the caller only tests it against nil; add a nil/empty guard that is redundant because callers already guarantee it. Each edit should be between a few and ~60 changed lines.
 
 Hard requirements for each edit: the project compiles; every existing test that passes today still passes; the observable behaviour (messages emitted, requests sent downstream, what is persisted, what is logged apart from wording, state transitions, locking and ordering of side effects, error/no-error outcomes) is unchanged. Do NOT change which lock protects what, the order of externally visible side effects, which goroutine does what, any comparison operator, any key or name construction, or what is persisted. If you are not sure an edit is behaviour-preserving, do not deliver it.
 
